@@ -254,6 +254,19 @@ def memTy (ms : Members) (i : Nat) : Except Fail Ty :=
   | some (_, t) => .ok t
   | none => .error (.crash "member index outside the member list")
 
+mutual
+  /-- does the object value carry any explicit initializer? -/
+  def hasExpr : Init → Bool
+    | .leaf e => e.isSome
+    | .arr cs => hasExprList cs
+    | .flex => false
+    | .struct e cs => e.isSome || hasExprList cs
+    | .union m cs => m.isSome || hasExprList cs
+  def hasExprList : List Init → Bool
+    | [] => false
+    | c :: cs => hasExpr c || hasExprList cs
+end
+
 /-! ## String literals -/
 
 /-- little-endian element `i` of width `w` of `tok->str`; `none` = read past the end of the literal -/
@@ -686,7 +699,7 @@ def leBytes (v : Nat) : Nat → List Nat
 
 def fromLE : List Nat → Nat
   | [] => 0
-  | b :: r => b + 256 * fromLE r
+  | b :: r => b % 256 + 256 * fromLE r
 
 def u64 (v : Int) : Nat := (v % 18446744073709551616).toNat
 
@@ -869,10 +882,9 @@ def cellByte? : Cell → Option Nat
 /-- the bit-field arm of ND_ASSIGN: `rdi = (rax & mask) << bit_offset; rax = load(unit); rax &= ~(mask << bit_offset);
     rax |= rdi; store(unit)` — byte `k` of the unit -/
 def rmwCell (old : Cell) (maskByte valByte : Nat) : Cell :=
-  if maskByte = 0 then old                       -- (old & 0xff) | 0
-  else match old with
-    | .byte b => .byte ((b &&& (255 - maskByte)) ||| valByte)
-    | _ => .junk
+  match old with
+  | .byte b => .byte (((b &&& (255 - maskByte)) ||| valByte) % 256)
+  | c => if maskByte = 0 then c else .junk       -- a byte of an address: kept if untouched, else no longer an address
 
 def runAssign (mem : List Cell) (a : Assign) : Except Fail (List Cell) :=
   let off := a.addr
